@@ -19,7 +19,7 @@ from typing import Any, Dict, List, Optional, Tuple
 
 from ..cfg import cfg_of
 from ..consteval import ConstEval
-from ..flow import Sym, fpaths
+from ..flow import Sym, fpaths, allfacts
 from ..model import FuncInfo, attr_chain, norm, walk_no_nested
 from ..report import Checker
 from .c01 import _relay_param
@@ -76,7 +76,7 @@ def run(ch: Checker) -> None:
     for p in fpaths(g, limit=100000):
         ch.paths += 1
         sym = Sym(p)
-        fd = dict(p.facts())
+        fd = allfacts(p)
         for i, n_, lab in p.executed():
             st = n_.ast
             if n_.kind != 'stmt' or lab == 'exc':
@@ -84,7 +84,7 @@ def run(ch: Checker) -> None:
             # C12.1
             if isinstance(st, ast.Assign) and norm(st.targets[0]) == 'port':
                 http = fd.get('self.choice.scheme == HTTP_PROTO')
-                v = st.value
+                v = sym.value(st.value, i)
                 default = None
                 explicit = False
                 if isinstance(v, ast.BoolOp) and isinstance(v.op, ast.Or) and len(v.values) == 2:
@@ -189,7 +189,7 @@ def run(ch: Checker) -> None:
     bad = None
     n = 0
     for p in fpaths(go):
-        fd = dict(p.facts())
+        fd = allfacts(p)
         if p.exit_kind == 'return' and fd.get('self.route is None') is True and fd.get('self.flags.enable_static_server') is False:
             n += 1
             q = [norm(c.args[0]) for i, st in p.stmts() for c in walk_no_nested(st) if isinstance(c, ast.Call) and attr_chain(c.func) == 'self.client.queue' and c.args]
